@@ -84,7 +84,23 @@ def do_matrix():
               ", ".join(f"{k}:{'V' if v['exit']==1 else v['exit']}" + ("(nfi)" if any('no-failing-input-found' in l for l in v['violation_lines']) else "") for k, v in cr.items()) +
               "  | " + m.get("summary", "")[:90])
 
+def do_matrix_md():
+    d = os.path.join(VERIF, "seeded")
+    print("| seeded change | property | what it changes | needs to manifest | caught by | verdict |")
+    print("|---|---|---|---|---|---|")
+    for name in sorted(os.listdir(d)):
+        m = json.load(open(os.path.join(d, name, "meta.json")))
+        cr = m.get("check_results", {})
+        by = []
+        for k, v in cr.items():
+            if v["exit"] == 1 and v["violation_lines"]:
+                nfi = any("no-failing-input-found" in l for l in v["violation_lines"])
+                by.append(f"`./check {k} {v['tier']}`" + (" (no-failing-input-found)" if nfi else " (concrete replay)"))
+        esc = lambda t: str(t).replace("|", "\\|").replace("\n", " ")
+        print(f"| {name} | {m['property']} | {esc(m.get('summary',''))[:160]} | {esc(m.get('needs_to_manifest',''))[:160]} | {', '.join(by) or '—'} | {'caught' if m.get('caught') else 'MISSED'} |")
+
 if __name__ == "__main__":
+    if sys.argv[1] == "matrix-md": sys.exit(do_matrix_md())
     a = sys.argv[1:]
     if a[0] == "import": sys.exit(do_import(a[1], a[2], a[3]))
     if a[0] == "run": sys.exit(do_run(a[1], a[2] if len(a) > 2 else "quick"))
